@@ -328,3 +328,10 @@ extend("C09", "", "object defaults that list some of the declared properties; ob
 extend("C10", "A-REFNAMES", "both pointer prefixes in any capitalisation name the definition written after them.")
 extend("C08", "", "bounded integer enums keep carrier and table in agreement (also under --min-sized-ints).")
 extend("C11", "", "required names that differ only in case are two names.")
+# ---- round 10 additions
+extend("C18", "A-HANG (step budget)", "the suffix search for a free enum constant name terminates (four values normalising to one identifier).")
+extend("C08", "", "four enum values that normalise to one identifier get four constants.")
+extend("C16", "A-REL (no-alias clause)", "a titled document reached as an allOf branch and then plainly is one type under one name with -t.")
+extend("C12", "B-QUALIFIED", "a file name is resolved as written, relative to the referring file (no percent-decoding).")
+extend("C10", "", "a file name is resolved as written (no percent-decoding).")
+extend("C17", "", "with --extra-imports and a tag list without yaml both methods are emitted and agree.")
